@@ -200,6 +200,12 @@ class FDGen:
             self.stmts.append(["param", f"p{i}", self.operand(allow_const=False)])
         for i in range(nobj):
             self.stmts.append(["object", "ego" if i == 0 else f"obj{i}", self.operand(allow_const=False), i > 0])
+        if nobj == 2 and t.chance(1, 3, "ego.rebind?"):
+            # a requirement that mentions `ego`, stated while `ego` is the first object, followed by
+            # rebinding `ego` to the second one: it keeps constraining the first object
+            first = next(st for st in self.stmts if st[0] == "object")
+            self.stmts.append(["require", None, t.choice([">", "<=", "!="], "ego.cmp"), first[2],
+                               ["c", t.intrange(0, 3, "ego.c")], "via-ego"])
         strata = 4 if any(s[0] == "require" and s[1] in ("0.25", "0.75") for s in self.stmts) else 2
         return {"nodes": self.nodes, "stmts": self.stmts, "mode2D": self.mode2D, "strata": strata}
 
@@ -268,6 +274,10 @@ def render(prog):
             # statements already emitted, which is what rebinding means
         elif s[0] == "param":
             out.append(f"param {s[1]} = {opnd(s[2])}")
+        elif s[0] == "require" and len(s) > 5:
+            # (stated after both objects exist; the first object sits at x = 3 * its cell)
+            out.append(f"require (ego.position.x / 3) {s[2]} {opnd(s[4])}")
+            out.append("ego = obj1")
         elif s[0] == "require":
             pr = f"[{s[1]}]" if s[1] else ""
             out.append(f"require{pr} {opnd(s[3])} {s[2]} {opnd(s[4])}")
